@@ -1361,9 +1361,16 @@ func alwaysFreshSlice(al *ssa.Alloc) bool {
 				return false
 			}
 		case *ssa.Slice:
-			if !isSelf(v.X) {
-				return false
+			if isSelf(v.X) {
+				continue
 			}
+			// a composite literal: a slice of an array allocated right here
+			if a2, ok := v.X.(*ssa.Alloc); ok && a2.Heap {
+				if _, isArr := a2.Type().Underlying().(*types.Pointer).Elem().Underlying().(*types.Array); isArr {
+					continue
+				}
+			}
+			return false
 		default:
 			return false
 		}
